@@ -1,5 +1,6 @@
 import EventppVerif.CL.PropAuxC19
 import EventppVerif.CL.FrameSub
+import EventppVerif.CL.GhostTrace
 import EventppVerif.Properties.C02
 /-
   Property C19 — generation-counter wrap-around never loses or resurrects a callback.
@@ -33,6 +34,10 @@ import EventppVerif.Properties.C02
     `_ops`, `_seek`): an invocation in progress when the counter wraps still calls every callback
     of its snapshot that is in the list when reached, exactly once, in snapshot order; the only
     other callbacks it can call are ones added after it started;
+  * `C19_called_is_trace` (with `_init`, `_step`, `_runN`, `_erase`): the ghost field `called` used
+    above *is* the sequence of handles of the `.call` events that the invocation appended to the
+    trace, at every nesting depth, along every run; `C19_trace_once_from` / `C19_trace_once`: the
+    closed form of `C19_during_once` stated on the trace, with no ghost record in the statement;
   * concrete runs with modulus 4: content survives the wrap; the permitted extra calls occur; the
     snapshot survivors are still called after a wrap that happens during the invocation.
 -/
@@ -451,8 +456,279 @@ theorem C19_during_once_seek {l : CL} {SL : SList} {b m cap : Nat} {rest : List 
     `C19_during_once_sublist`: the sublist form of the frame invariant.
   The ghost field `called` is maintained by `gstep` (it appends `n'` exactly in the branches where
   `MCfg.seekCall` emits `.call ⟨l, n', …⟩` for that frame); that `called` is the sequence of those
-  `.call` events of the trace is by construction of `gstep`, not a separate theorem.
+  `.call` events of the trace is PROVED below (`C19_called_is_trace`, CL/GhostTrace.lean), and
+  `C19_trace_once` restates `C19_during_once_end` on the trace, without ghost records.
 -/
+
+/-! ### `called` is the sequence of `.call` events of the invocation
+
+  Nested invocations (a callback that invokes the same or another list) write into the same trace,
+  and the trace alone does not say which invocation emitted an event.  So the run is instrumented
+  once more (`trunN`, CL/GhostTrace.lean), again without influencing it (`C19_called_is_trace_erase`):
+
+  * `ann` — one number per trace event (newest first, like the trace), the *emitter* of the event:
+    `astep` annotates every event appended by the step out of `m` with `emitDepth m`, which for a
+    step of a traversal (`ret v :: iter … :: below`, or `invoke` / `enum` pushing `iter … ::
+    wait k :: rest`) is the number of frames under that traversal's `.iter` frame.  The frames under
+    a running traversal never change and every traversal nested in it sits strictly higher, so
+    among the events emitted while a traversal runs this number singles out its own.
+  * `ks` — one *mark* per running traversal: the length of the trace when it started.
+
+  `since k (trace.zip ann)` are the annotated events appended after the trace had length `k`, and
+  `emittedBy d seg` the handles of the `.call` events of `seg` with emitter `d`, oldest first.
+
+  `TInv m gs ks ann`: `ann.length = m.trace.length`, and for every running traversal
+  `iter l n cap arg ho` with `d` frames under it, ghost record `g` and mark `k`:
+  `k ≤ m.trace.length`, `g.called = emittedBy d (since k (m.trace.zip ann))`, and every `.call` event
+  after the mark with emitter `d` is a call `⟨l, _, _, arg, ho⟩`. -/
+
+/-- **C19 (`called` is the trace, start).**  `TInv` holds in every world without a running
+    invocation (every event so far gets the immaterial annotation 0) … -/
+theorem C19_called_is_trace_init {m : MCfg} {p : Prog} (hst : m.stack = [.prog p]) :
+    TInv m [] [] (List.replicate m.trace.length 0) :=
+  tinv_init hst
+
+/-- … and every step of every behaviour keeps it: the step appends `.call ⟨l, n', …⟩` with the
+    emitter of a traversal exactly when `gstep` appends `n'` to `called` of that traversal's record;
+    the events of nested and of enclosing traversals carry a different emitter; a traversal that
+    starts gets the current trace length as its mark. -/
+theorem C19_called_is_trace_step (beh : Beh) {m m' : MCfg} {gs : List Ghost} {ks ann : List Nat}
+    (h : TInv m gs ks ann) (st : MCfg.step beh m = some m') :
+    TInv m' (gstep m gs) (kstep m ks) (astep m m' ann) :=
+  tinv_step beh h st
+
+/-- `n` steps -/
+theorem C19_called_is_trace_inv (beh : Beh) (n : Nat) {m : MCfg} {gs : List Ghost} {ks ann : List Nat}
+    (h : TInv m gs ks ann) :
+    TInv (trunN beh n m gs ks ann).1 (trunN beh n m gs ks ann).2.1 (trunN beh n m gs ks ann).2.2.1
+      (trunN beh n m gs ks ann).2.2.2 :=
+  tinv_runN beh n h
+
+/-- **C19 (`called` is the trace, along every run).**  From every start world with well-formed
+    list objects and no invocation in progress, for every behaviour and every number of steps:
+    the instrumented run satisfies `GInv` (the hypothesis of `C19_during_once`, `_end`) and `TInv`
+    (the tie of `called` to the trace). -/
+theorem C19_called_is_trace_runN (beh : Beh) (n : Nat) {m : MCfg} (h : MInv m) {p : Prog}
+    (hst : m.stack = [.prog p]) :
+    let r := trunN beh n m [] [] (List.replicate m.trace.length 0)
+    GInv r.1 r.2.1 ∧ TInv r.1 r.2.1 r.2.2.1 r.2.2.2 := by
+  intro r
+  refine ⟨?_, tinv_runN beh n (tinv_init hst)⟩
+  have := ginv_runN beh n (ginv_init h hst)
+  rw [← trunN_grunN beh n m [] [] (List.replicate m.trace.length 0)] at this
+  exact this
+
+/-- marks and annotation are bookkeeping only: the Model state and the ghost stack of the
+    instrumented run are those of `grunN` (hence of `MCfg.runN`, `C19_during_once_erase`), and the
+    annotation does not depend on the ghost records (`arunN` is defined without them). -/
+theorem C19_called_is_trace_erase (beh : Beh) (n : Nat) (m : MCfg) (gs : List Ghost) (ks ann : List Nat) :
+    ((trunN beh n m gs ks ann).1, (trunN beh n m gs ks ann).2.1) = grunN beh n m gs ∧
+    (trunN beh n m gs ks ann).1 = (MCfg.runN beh n m).1 ∧
+    (trunN beh n m gs ks ann).2.2.2 = arunN beh n m ann :=
+  ⟨trunN_grunN beh n m gs ks ann, trunN_fst beh n m gs ks ann, trunN_ann beh n m gs ks ann⟩
+
+/-- **C19 (`called` is the trace) — `C19_called_is_trace`.**  In a state satisfying `GInv` and
+    `TInv` (every state of every run, `C19_called_is_trace_runN`), for *every* running traversal
+    `iter l n cap arg ho` — `pre` are the frames above it, `below` those under it, so any nesting
+    depth —: its ghost record `g` and its mark `k` are the entries number `iters pre` (the number
+    of traversals above it) of the ghost stack and of the marks, and
+
+    * `g` is the record for which the frame invariant `FrameD` and `GhostOK` hold (the record that
+      `C19_during_once`, `C19_during_once_end` speak about when the traversal is the top one);
+    * `g.called` is the list of handles, oldest first, of the `.call` events appended to the trace
+      since the traversal started (`since k`) whose emitter is this traversal (`below.length`);
+    * every such event is a call of list `l` with this traversal's argument and flag. -/
+theorem C19_called_is_trace {m : MCfg} {gs : List Ghost} {ks ann : List Nat} (hg : GInv m gs)
+    (ht : TInv m gs ks ann) {pre below : List MFrame} {l n cap arg : Nat} {ho : Bool}
+    (hst : m.stack = pre ++ .iter l n cap arg ho :: below) :
+    ann.length = m.trace.length ∧
+    ∃ g k, gs[iters pre]? = some g ∧ ks[iters pre]? = some k ∧ k ≤ m.trace.length ∧
+      FrameD (m.lists l) (absL m l) m.nextId n cap g.born g.rest ∧ GhostOK (absL m l) g ∧
+      g.called = emittedBy below.length (since k (m.trace.zip ann)) ∧
+      ∀ c, (Ev.call c, below.length) ∈ since k (m.trace.zip ann) → c.list = l ∧ c.arg = arg ∧ c.enum = ho := by
+  have h1 := hg.2
+  have h2 := ht.2
+  rw [hst] at h1 h2
+  obtain ⟨g, k, e1, e2, e3, e4, e5⟩ := h2.frame
+  obtain ⟨g', e1', f1, f2⟩ := h1.frame
+  rw [e1] at e1'
+  cases e1'
+  exact ⟨ht.1, g, k, e1, e2, e3, f1, f2, e4, e5⟩
+
+/-- **C19 (in progress, on the trace) — `C19_during_once_end` without ghost records.**
+    Let `m1` be a state satisfying the two invariants (every reachable state, see `C19_trace_once`)
+    whose program is about to `invoke` (`ho = false`) or `enum` (`ho = true`) list `l`, above the
+    frames `rest`.  Run `j + 1` steps of any behaviour, and suppose that after each of these steps
+    the stack is at least `rest.length + 3` high — i.e. the traversal pushed by this command
+    (`… :: iter l … :: wait kk :: rest`) has not ended; any number of counter wraps may happen.
+    Suppose that in the state `m2` reached the callback of a traversal with `rest.length + 1` frames
+    under it returns and its skip loop finds nothing more to call.  Then that traversal is the one
+    started at `m1` (same list, argument, flag, frames under it), and with
+
+      `calls` := the handles, oldest first, of the `.call` events that this traversal appended to
+                 the trace: the events after position `m1.trace.length` whose emitter annotation
+                 (`arunN`, computed from the Model run alone) is `rest.length + 1`,
+
+    * the content of the list at the start, `absL m1 l`, has distinct handles, all `< m1.nextId`;
+    * the calls of callbacks that existed at the start (`handle < m1.nextId`) are, in call order, a
+      sublist of the handles of `absL m1 l`: list order, none twice;
+    * every callback of `absL m1 l` that is in the list at the end was called.
+
+    Nothing in the conclusion mentions a ghost record.  What remains ghost is the emitter
+    annotation `arunN`: the trace itself does not record which of several nested invocations
+    emitted a `.call` (see CL/GhostTrace.lean); `astep` / `emitDepth` define it from the stack of
+    the Model configuration at each step. -/
+theorem C19_trace_once_from (beh : Beh) {m1 : MCfg} {gs1 : List Ghost} {ks1 ann1 : List Nat}
+    (hg : GInv m1 gs1) (ht : TInv m1 gs1 ks1 ann1) {l arg : Nat} {ho : Bool} {kk : Res → Prog}
+    {rest : List MFrame}
+    (hst1 : (ho = false ∧ m1.stack = .prog (.op (.invoke l arg) kk) :: rest) ∨
+      (ho = true ∧ m1.stack = .prog (.op (.enum l arg) kk) :: rest))
+    (j : Nat)
+    (hp : ∀ t, 1 ≤ t → t ≤ j + 1 → rest.length + 3 ≤ (MCfg.runN beh t m1).1.stack.length)
+    {v : Bool} {l' n cap arg' : Nat} {ho' : Bool} {below : List MFrame}
+    (hst2 : (MCfg.runN beh (j + 1) m1).1.stack = .prog (.ret v) :: .iter l' n cap arg' ho' :: below)
+    (hlen : below.length = rest.length + 1)
+    (hend : seek ((MCfg.runN beh (j + 1) m1).1.lists l').heap cap ((MCfg.runN beh (j + 1) m1).1.nextId + 1)
+      (((MCfg.runN beh (j + 1) m1).1.lists l').heap n).next = none) :
+    let m2 := (MCfg.runN beh (j + 1) m1).1
+    let calls := emittedBy (rest.length + 1) (since m1.trace.length (m2.trace.zip (arunN beh (j + 1) m1 ann1)))
+    (l' = l ∧ arg' = arg ∧ ho' = ho ∧ below = .wait kk :: rest) ∧
+    (SList.ids (absL m1 l)).Nodup ∧ (∀ e ∈ absL m1 l, e.id < m1.nextId) ∧
+    List.Sublist (calls.filter (fun x => decide (x < m1.nextId))) (SList.ids (absL m1 l)) ∧
+    (∀ e ∈ absL m1 l, (absL m2 l).present e.id = true → e.id ∈ calls) := by
+  intro m2 calls
+  -- the instrumented run
+  have hr1 : (trunN beh (j + 1) m1 gs1 ks1 ann1).1 = m2 := trunN_fst beh (j + 1) m1 gs1 ks1 ann1
+  have hr4 : (trunN beh (j + 1) m1 gs1 ks1 ann1).2.2.2 = arunN beh (j + 1) m1 ann1 :=
+    trunN_ann beh (j + 1) m1 gs1 ks1 ann1
+  have hg2 : GInv (trunN beh (j + 1) m1 gs1 ks1 ann1).1 (trunN beh (j + 1) m1 gs1 ks1 ann1).2.1 := by
+    have := ginv_runN beh (j + 1) hg
+    rw [← trunN_grunN beh (j + 1) m1 gs1 ks1 ann1] at this
+    exact this
+  have ht2 := tinv_runN beh (j + 1) ht
+  -- the first step starts the traversal
+  have hstep : MCfg.step beh m1 =
+      some (MCfg.seekCall beh m1 l (m1.lists l).head (m1.lists l).cur arg ho (.wait kk :: rest)) ∧
+      gstep m1 gs1 = gstart m1 l gs1 ∧ kstep m1 ks1 = kstart m1 l ks1 := by
+    rcases hst1 with ⟨rfl, h⟩ | ⟨rfl, h⟩
+    · exact ⟨MCfg.step_invoke h, gstep_invoke h, kstep_invoke h⟩
+    · exact ⟨MCfg.step_enum h, gstep_enum h, kstep_enum h⟩
+  obtain ⟨hm, hgs, hks⟩ := hstep
+  have e : ∀ t, trunN beh (t + 1) m1 gs1 ks1 ann1 =
+      trunN beh t (MCfg.seekCall beh m1 l (m1.lists l).head (m1.lists l).cur arg ho (.wait kk :: rest))
+        (gstart m1 l gs1) (kstart m1 l ks1) (astep m1 (MCfg.seekCall beh m1 l (m1.lists l).head (m1.lists l).cur arg ho (.wait kk :: rest)) ann1) := by
+    intro t; rw [trunN, hm, hgs, hks]
+  have hp' : ∀ t, t ≤ j → rest.length + 3 ≤
+      (trunN beh t (MCfg.seekCall beh m1 l (m1.lists l).head (m1.lists l).cur arg ho (.wait kk :: rest))
+        (gstart m1 l gs1) (kstart m1 l ks1) (astep m1 (MCfg.seekCall beh m1 l (m1.lists l).head (m1.lists l).cur arg ho (.wait kk :: rest)) ann1)).1.stack.length := by
+    intro t ht'
+    have := hp (t + 1) (by omega) (by omega)
+    rw [← trunN_fst beh (t + 1) m1 gs1 ks1 ann1, e] at this
+    exact this
+  cases hsk : seek (m1.lists l).heap (m1.lists l).cur (m1.nextId + 1) (m1.lists l).head with
+  | none =>
+    exfalso
+    have h0 := hp' 0 (Nat.zero_le _)
+    have e0 : MCfg.seekCall beh m1 l (m1.lists l).head (m1.lists l).cur arg ho (.wait kk :: rest) =
+        m1.deliver (MCfg.finishRes ho true) (.wait kk :: rest) := by
+      unfold MCfg.seekCall MCfg.fuel; rw [hsk]
+    rw [e0] at h0
+    have := MCfg.deliver_stack_le m1 (MCfg.finishRes ho true) (.wait kk :: rest)
+    simp only [trunN, List.length_cons] at h0 this
+    omega
+  | some n' =>
+    obtain ⟨e0, es, hSL, _, _, hgst, hnd, hlt⟩ := C19_during_once_start hg (gs := gs1) hsk
+    have hkst : kstart m1 l ks1 = m1.trace.length :: ks1 := by
+      unfold kstart MCfg.fuel; rw [hsk]
+    have hstk : (MCfg.seekCall beh m1 l (m1.lists l).head (m1.lists l).cur arg ho (.wait kk :: rest)).stack =
+        [.prog (beh ⟨l, n', ((m1.lists l).heap n').cb, arg, ho⟩ (countCalls m1.trace ((m1.lists l).heap n').cb))] ++
+          .iter l n' (m1.lists l).cur arg ho :: .wait kk :: rest := by
+      unfold MCfg.seekCall MCfg.fuel; rw [hsk]; rfl
+    have hf0 : Follow (.wait kk :: rest) gs1 ks1 l arg ho m1.nextId (absL m1 l) m1.trace.length
+        (MCfg.seekCall beh m1 l (m1.lists l).head (m1.lists l).cur arg ho (.wait kk :: rest))
+        (gstart m1 l gs1) (kstart m1 l ks1) :=
+      ⟨_, n', _, _, [], [], hstk, by rw [hgst]; rfl, by rw [hkst]; rfl, rfl, rfl, rfl, by rw [hSL]⟩
+    have hf := follow_runN beh j (ann := astep m1 (MCfg.seekCall beh m1 l (m1.lists l).head (m1.lists l).cur arg ho (.wait kk :: rest)) ann1) hf0 (by
+      intro t ht'
+      have := hp' t ht'
+      simpa using this)
+    rw [← e j] at hf
+    have hst2' : (trunN beh (j + 1) m1 gs1 ks1 ann1).1.stack = .prog (.ret v) :: .iter l' n cap arg' ho' :: below := by
+      rw [hr1]; exact hst2
+    obtain ⟨hb, hl', ha', hho', g, hgs2, hks2, hborn, hsnap⟩ := hf.top hst2' (by simpa using hlen)
+    have hend' : seek ((trunN beh (j + 1) m1 gs1 ks1 ann1).1.lists l').heap cap
+        ((trunN beh (j + 1) m1 gs1 ks1 ann1).1.nextId + 1)
+        (((trunN beh (j + 1) m1 gs1 ks1 ann1).1.lists l').heap n).next = none := by
+      rw [hr1]; exact hend
+    obtain ⟨g', gs', hgg, d1, d2, d3, d4⟩ := C19_during_once_end hg2 hst2' hend'
+    rw [hgs2] at hgg
+    injection hgg with hgg _
+    subst hgg
+    -- the tie at the end
+    have hts := ht2.2
+    rw [hst2', hgs2, hks2] at hts
+    obtain ⟨g'', _, k'', _, hg'', hk'', _, hcalled, _, _⟩ := hts.prog_inv.iter_inv
+    injection hg'' with hg'' _
+    injection hk'' with hk'' _
+    subst hg''; subst hk''
+    have hcalls : g.called = calls := by
+      rw [hcalled, hr1, hr4, hlen]
+    subst hl'
+    rw [hborn, hsnap, hcalls] at d3
+    rw [hsnap] at d1 d2
+    rw [hborn] at d2
+    refine ⟨⟨rfl, ha', hho', hb⟩, d1, d2, d3, ?_⟩
+    intro e he hpres
+    have := d4 e (by rw [hsnap]; exact he) (by rw [hr1]; exact hpres)
+    rw [hcalls] at this
+    exact this
+
+/-- **C19 (in progress, on the trace, along runs from a start world) — `C19_trace_once`.**
+    `C19_trace_once_from` for the states of a run from a start world `m0` with well-formed list
+    objects and no invocation in progress: `m1` is the state after `i` steps, about to `invoke` /
+    `enum` list `l`; the traversal so started is still running after each of the steps
+    `i + 1, …, i + j + 1`; in the state `m2` after `i + j + 1` steps its skip loop finds nothing more.
+    `calls` are the handles of the `.call` events this traversal appended to the trace (emitter
+    annotation `arunN` of the whole run, positions after `m1.trace.length`).  Then: the calls of
+    callbacks older than the traversal are a sublist of the list content at its start (list order,
+    none twice), and every callback of that content still in the list at the end was called —
+    whatever the callbacks did, however often the generation counter wrapped meanwhile.  No ghost
+    record occurs in the statement; the only instrumentation left is the emitter annotation. -/
+theorem C19_trace_once (beh : Beh) {m0 : MCfg} (h0 : MInv m0) {p : Prog} (hst0 : m0.stack = [.prog p])
+    (i j : Nat) {l arg : Nat} {ho : Bool} {kk : Res → Prog} {rest : List MFrame}
+    (hst1 : (ho = false ∧ (MCfg.runN beh i m0).1.stack = .prog (.op (.invoke l arg) kk) :: rest) ∨
+      (ho = true ∧ (MCfg.runN beh i m0).1.stack = .prog (.op (.enum l arg) kk) :: rest))
+    (hp : ∀ t, i < t → t ≤ i + (j + 1) → rest.length + 3 ≤ (MCfg.runN beh t m0).1.stack.length)
+    {v : Bool} {l' n cap arg' : Nat} {ho' : Bool} {below : List MFrame}
+    (hst2 : (MCfg.runN beh (i + (j + 1)) m0).1.stack = .prog (.ret v) :: .iter l' n cap arg' ho' :: below)
+    (hlen : below.length = rest.length + 1)
+    (hend : seek ((MCfg.runN beh (i + (j + 1)) m0).1.lists l').heap cap
+      ((MCfg.runN beh (i + (j + 1)) m0).1.nextId + 1)
+      (((MCfg.runN beh (i + (j + 1)) m0).1.lists l').heap n).next = none) :
+    let m1 := (MCfg.runN beh i m0).1
+    let m2 := (MCfg.runN beh (i + (j + 1)) m0).1
+    let ann := arunN beh (i + (j + 1)) m0 (List.replicate m0.trace.length 0)
+    let calls := emittedBy (rest.length + 1) (since m1.trace.length (m2.trace.zip ann))
+    (l' = l ∧ arg' = arg ∧ ho' = ho ∧ below = .wait kk :: rest) ∧
+    (SList.ids (absL m1 l)).Nodup ∧ (∀ e ∈ absL m1 l, e.id < m1.nextId) ∧
+    List.Sublist (calls.filter (fun x => decide (x < m1.nextId))) (SList.ids (absL m1 l)) ∧
+    (∀ e ∈ absL m1 l, (absL m2 l).present e.id = true → e.id ∈ calls) := by
+  intro m1 m2 ann calls
+  obtain ⟨hg, ht⟩ := C19_called_is_trace_runN beh i h0 hst0
+  have e1 : (trunN beh i m0 [] [] (List.replicate m0.trace.length 0)).1 = m1 := trunN_fst beh i m0 _ _ _
+  have e4 : (trunN beh i m0 [] [] (List.replicate m0.trace.length 0)).2.2.2 =
+      arunN beh i m0 (List.replicate m0.trace.length 0) := trunN_ann beh i m0 _ _ _
+  rw [e1] at hg ht
+  rw [e4] at ht
+  have hrun : ∀ s, (MCfg.runN beh (i + s) m0).1 = (MCfg.runN beh s m1).1 := by
+    intro s; rw [MCfg.runN_add]
+  have hann : ann = arunN beh (j + 1) m1 (arunN beh i m0 (List.replicate m0.trace.length 0)) :=
+    arunN_add beh i (j + 1) m0 _
+  have := C19_trace_once_from beh hg ht hst1 j
+    (by intro t h1 h2; rw [← hrun]; exact hp (i + t) (by omega) (by omega))
+    (by rw [← hrun]; exact hst2) hlen (by rw [← hrun]; exact hend)
+  rw [← hrun, ← hann] at this
+  exact this
 
 /-! ### non-vacuity: modulus 4 -/
 
@@ -584,5 +860,122 @@ example :
   have h0 : GInv (c19Init c19Prog3) [] := C19_during_once_init (c19Init_inv c19Prog3) rfl
   exact ⟨by decide +kernel, by decide +kernel, by decide +kernel, by decide +kernel,
     C19_during_once_inv c19Beh3 9 h0, C19_during_once_inv c19Beh3 12 h0⟩
+
+/-! ### `called` is the trace: concrete runs -/
+
+/-- **the tie on the wrap-during-invocation run** (`c19Beh3` / `c19Prog3` above, 12 steps).  The
+    traversal started when the trace had 3 events (mark 3) and has 1 frame under it (the suspended
+    main program), so its emitter is 1.  The annotation (newest first) marks the five `.call`
+    events with 1 (the `.res` events of the callback's four commands carry 0); the `.call` events
+    emitted by the traversal since its mark are `[0, 1, 3, 4, 5]` — the ghost field `called`.  `TInv`
+    holds there, and the annotation is the one computed without ghost records. -/
+example :
+    let r12 := trunN c19Beh3 12 (c19Init c19Prog3) [] [] []
+    (r12.2.2.1 = [3] ∧ r12.2.2.2 = [1, 1, 1, 1, 0, 0, 0, 0, 1, 0, 0, 0] ∧
+      r12.2.2.2 = arunN c19Beh3 12 (c19Init c19Prog3) [] ∧
+      emittedBy 1 (since 3 (r12.1.trace.zip r12.2.2.2)) = [0, 1, 3, 4, 5] ∧
+      r12.2.1.map (·.called) = [emittedBy 1 (since 3 (r12.1.trace.zip r12.2.2.2))]) ∧
+    TInv r12.1 r12.2.1 r12.2.2.1 r12.2.2.2 :=
+  have h0 : TInv (c19Init c19Prog3) [] [] [] := C19_called_is_trace_init (m := c19Init c19Prog3) rfl
+  ⟨by decide +kernel, C19_called_is_trace_inv c19Beh3 12 h0⟩
+
+/-- the first callback, on its first call, invokes the list again -/
+def c19Beh4 : Beh := fun c nth =>
+  if c.cb = 10 ∧ nth = 0 then .op (.invoke 0 9) fun _ => .ret true else .ret true
+
+def c19Prog4 : Prog :=
+  .op (.append 0 10) fun _ => .op (.append 0 12) fun _ => .op (.invoke 0 7) fun _ => .ret true
+
+/-- **the tie with a nested invocation.**  The outer invocation (argument 7, mark 2, emitter 1) calls
+    handle 0, whose callback starts an inner invocation of the same list (argument 9, mark 3,
+    emitter 3: under it are the suspended callback, the outer traversal and the suspended main
+    program).  After 5 steps both run: the inner one has called `[0, 1]`, the outer one `[0]` — although
+    all three `.call` events lie after the outer mark, the annotation attributes only the first to
+    the outer traversal.  At the end the outer traversal has emitted the calls `[0, 1]` (events 3
+    and 7 of the trace), the inner one `[0, 1]` (events 4 and 5). -/
+example :
+    let r5 := trunN c19Beh4 5 (c19Init c19Prog4) [] [] []
+    let r40 := trunN c19Beh4 40 (c19Init c19Prog4) [] [] []
+    (r5.2.1.map (·.called) = [[0, 1], [0]] ∧ r5.2.2.1 = [3, 2] ∧ r5.2.2.2 = [3, 3, 1, 0, 0] ∧
+      emittedBy 3 (since 3 (r5.1.trace.zip r5.2.2.2)) = [0, 1] ∧
+      emittedBy 1 (since 2 (r5.1.trace.zip r5.2.2.2)) = [0]) ∧
+    (r40.1.trace.reverse =
+      [.res (.handle 0), .res (.handle 1), .call ⟨0, 0, 10, 7, false⟩,
+       .call ⟨0, 0, 10, 9, false⟩, .call ⟨0, 1, 12, 9, false⟩, .res .unit,
+       .call ⟨0, 1, 12, 7, false⟩, .res .unit] ∧
+      r40.2.2.2.reverse = [0, 0, 1, 3, 3, 3, 1, 1] ∧
+      emittedBy 1 (since 2 (r40.1.trace.zip r40.2.2.2)) = [0, 1] ∧
+      emittedBy 3 (since 3 (r40.1.trace.zip r40.2.2.2)) = [0, 1]) ∧
+    GInv r5.1 r5.2.1 ∧ TInv r5.1 r5.2.1 r5.2.2.1 r5.2.2.2 :=
+  have h0 : TInv (c19Init c19Prog4) [] [] [] := C19_called_is_trace_init (m := c19Init c19Prog4) rfl
+  have g0 : GInv (c19Init c19Prog4) [] := C19_during_once_init (c19Init_inv c19Prog4) rfl
+  have g5 : GInv (trunN c19Beh4 5 (c19Init c19Prog4) [] [] []).1 (trunN c19Beh4 5 (c19Init c19Prog4) [] [] []).2.1 := by
+    have := C19_during_once_inv c19Beh4 5 g0
+    rw [← (C19_called_is_trace_erase c19Beh4 5 (c19Init c19Prog4) [] [] []).1] at this
+    exact this
+  ⟨by decide +kernel, by decide +kernel, g5, C19_called_is_trace_inv c19Beh4 5 h0⟩
+
+/-- decidable shape test: the program on top is about to `invoke l arg`, with `d` frames under it -/
+def topInvokeIs (l arg d : Nat) : List MFrame → Bool
+  | .prog (.op (.invoke l' arg') _) :: rest => l' == l && arg' == arg && rest.length == d
+  | _ => false
+
+theorem topInvokeIs_sound {st : List MFrame} {l arg d : Nat} (h : topInvokeIs l arg d st = true) :
+    ∃ kk rest, st = .prog (.op (.invoke l arg) kk) :: rest ∧ rest.length = d := by
+  unfold topInvokeIs at h
+  split at h
+  · simp only [Bool.and_eq_true, beq_iff_eq] at h
+    obtain ⟨⟨rfl, rfl⟩, h⟩ := h
+    exact ⟨_, _, rfl, h⟩
+  · cases h
+
+/-- decidable shape test: the top callback returns `v` into the traversal `iter l n cap arg ho`, which
+    has `d` frames under it -/
+def topRetIterIs (v : Bool) (l n cap arg : Nat) (ho : Bool) (d : Nat) : List MFrame → Bool
+  | .prog (.ret v') :: .iter l' n' cap' arg' ho' :: below =>
+    v' == v && l' == l && n' == n && cap' == cap && arg' == arg && ho' == ho && below.length == d
+  | _ => false
+
+theorem topRetIterIs_sound {st : List MFrame} {v : Bool} {l n cap arg : Nat} {ho : Bool} {d : Nat}
+    (h : topRetIterIs v l n cap arg ho d st = true) :
+    ∃ below, st = .prog (.ret v) :: .iter l n cap arg ho :: below ∧ below.length = d := by
+  unfold topRetIterIs at h
+  split at h
+  · simp only [Bool.and_eq_true, beq_iff_eq] at h
+    obtain ⟨⟨⟨⟨⟨⟨rfl, rfl⟩, rfl⟩, rfl⟩, rfl⟩, rfl⟩, h⟩ := h
+    exact ⟨_, rfl, h⟩
+  · cases h
+
+/-- **`C19_trace_once` on the wrap-during-invocation run** (non-vacuity of its hypotheses, and its
+    conclusion there).  `m1` (3 steps) is about to `invoke` list 0 with content `[0, 1, 2]`,
+    `nextId = 3`; the traversal runs through the steps 4 … 12, the counter wraps meanwhile; in
+    `m2` (12 steps) its skip loop finds nothing more.  The `.call` events it appended to the trace
+    are `[0, 1, 3, 4, 5]`; those `< 3` are `[0, 1]`, a sublist of `[0, 1, 2]`; every callback of
+    `[0, 1, 2]` that is in the list at the end (0 and 1; 2 was removed) was called. -/
+example :
+    let m1 := (MCfg.runN c19Beh3 3 (c19Init c19Prog3)).1
+    let m2 := (MCfg.runN c19Beh3 12 (c19Init c19Prog3)).1
+    let calls := emittedBy 1 (since m1.trace.length (m2.trace.zip (arunN c19Beh3 12 (c19Init c19Prog3) [])))
+    (calls = [0, 1, 3, 4, 5] ∧ m1.nextId = 3 ∧ absL m1 0 = [⟨0, 10⟩, ⟨1, 12⟩, ⟨2, 15⟩] ∧ m2.wraps = 1 ∧
+      absL m2 0 = [⟨0, 10⟩, ⟨1, 12⟩, ⟨3, 11⟩, ⟨4, 13⟩, ⟨5, 14⟩]) ∧
+    List.Sublist (calls.filter (fun x => decide (x < m1.nextId))) (SList.ids (absL m1 0)) ∧
+    (∀ e ∈ absL m1 0, (absL m2 0).present e.id = true → e.id ∈ calls) := by
+  intro m1 m2 calls
+  obtain ⟨kk, rest, h1, hr⟩ := topInvokeIs_sound
+    (show topInvokeIs 0 7 0 (MCfg.runN c19Beh3 3 (c19Init c19Prog3)).1.stack = true by decide +kernel)
+  obtain ⟨below, h2, hb⟩ := topRetIterIs_sound
+    (show topRetIterIs true 0 5 3 7 false 1 (MCfg.runN c19Beh3 12 (c19Init c19Prog3)).1.stack = true by
+      decide +kernel)
+  have key : ∀ t, t < 13 → 3 < t → 3 ≤ (MCfg.runN c19Beh3 t (c19Init c19Prog3)).1.stack.length := by
+    decide +kernel
+  have hend : seek ((MCfg.runN c19Beh3 12 (c19Init c19Prog3)).1.lists 0).heap 3
+      ((MCfg.runN c19Beh3 12 (c19Init c19Prog3)).1.nextId + 1)
+      (((MCfg.runN c19Beh3 12 (c19Init c19Prog3)).1.lists 0).heap 5).next = none := by decide +kernel
+  have e12 : 12 = 3 + (8 + 1) := rfl
+  rw [e12] at h2 hend
+  have h := C19_trace_once c19Beh3 (c19Init_inv c19Prog3) rfl 3 8 (Or.inl ⟨rfl, h1⟩)
+    (fun t h1 h2 => by rw [hr]; exact key t (by omega) h1) h2 (by rw [hb, hr]) hend
+  rw [hr, ← e12] at h
+  exact ⟨by decide +kernel, h.2.2.2.1, h.2.2.2.2⟩
 
 end Evp
